@@ -612,6 +612,23 @@ def build(u):
             !final(a).failed && old(a).s.disabled_means_no_key() ==> final(a).s.disabled_means_no_key(),  // @C09.notified.disabled_means_no_key_preserved
 """)
 
+            # ---- (f) the else-block of the same test: after provision::key_latched the task sleeps for the REST of the window. The
+            #      statements from `let slept_time_in_millisec` to the end of the else-block are lifted (E5): C13 -- no arithmetic
+            #      overflow/underflow (a panic in the debug profile, a practically endless sleep of the poll task in release).
+            eo, ec = brace_block(kk, bc)
+            if not re.match(r"\s*else\s*$", kk.s(bc, eo)):
+                raise Undecided("loop_poll: the state test of the notified arm has no else-block directly after its then-block")
+            eblk = kk.s(eo, ec)
+            sm = list(re.finditer(r"let\s+slept_time_in_millisec\s*=", eblk))
+            if len(sm) != 1:
+                raise Undecided("loop_poll: the else-block of the notified arm no longer computes `slept_time_in_millisec`")
+            u.slice_fn(kk, "KeyKeeper::loop_poll", "vx_notified_rest_of_sleep", eo + len(eblk[:sm[0].start()].encode()), ec - 1,
+                       "current_state: String, sleep: Duration, time: Instant", ret_type="()", is_async=True,
+                       pre_body="broadcast use group_fmt, axiom_fmt_duration;\n",
+                       what="(tail of the else-block of the state test in the `notified` arm of the select!: remaining-sleep computation)",
+                       contract="")
+            u.auto_props["vx_notified_rest_of_sleep"] = "C13"
+
             # ---- (d) poll_secure_channel_status: the statements before the select! are verified as they are; the select!
             #      itself (Verus crashes on tokio::select!, T18) is moved verbatim into a generated stub (E9 statement redirection)
             pit = kk.item("KeyKeeper::poll_secure_channel_status", "fn")
